@@ -30,6 +30,18 @@ ALPHA = [B.NOT_PRESENT, B.UNDEFINED, B.ZERO_ST, B.UNMAPPED, DATA]
 ALPHA_SMALL = [B.NOT_PRESENT, B.ZERO_ST, DATA]
 
 
+def _extra_items(where):
+    import struct
+
+    if not where:
+        return None
+    return [(where, bytes(range(0x40, 0x50)), b"user-note: not a system item", 1),           # unknown GUID, IsUser
+            (where, bytes(range(0x60, 0x70)), b"\x01\x02\x03\x04", 2),                      # unknown GUID, system, optional
+            (where, B.VIRTUAL_DISK_SIZE, struct.pack("<Q", 7 * MB), 1),                       # user item with a system GUID
+            (where, B.LOGICAL_SECTOR_SIZE, struct.pack("<I", 4096), 3),
+            (where, B.FILE_PARAMETERS, struct.pack("<II", 32 * MB, 0), 1)]
+
+
 def _geoms(tier):
     q = [
         dict(bs=MB, sec=512, W=3, cut=0, at=0, total=None, seqs=[7, 6], regions=["meta", "bat"], meta_mb=2, bat_mb=3),
@@ -57,6 +69,11 @@ def _geoms(tier):
     # 4096-byte sectors, size an exact multiple of the block size (the last sector is the last sector of the last block)
     q.append(dict(bs=MB, sec=4096, W=3, cut=0, at=0, total=None, seqs=[7, 6], regions=["meta", "bat"], meta_mb=2, bat_mb=3,
                   alpha="small"))
+    # metadata items a reader does not know (optional: ignored) and user items that reuse a system item's GUID (another name
+    # space: an item is identified by (ItemId, IsUser)), in front of and behind the system items
+    for where in ("first", "last"):
+        q.append(dict(bs=MB, sec=512, W=3, cut=512, at=0, total=None, seqs=[7, 6], regions=["meta", "bat"], meta_mb=2, bat_mb=3,
+                      alpha="small", extra_items=where))
     # BAT entries beyond index 65536 (a 64 GiB disk of 1 MiB blocks)
     q.append(dict(bs=MB, sec=512, W=3, cut=512 * 7, at=65534, total=65538, seqs=[7, 6], regions=["meta", "bat"], meta_mb=2, bat_mb=3,
                   alpha="small"))
@@ -171,7 +188,7 @@ def run_case(case, ctx):
     buf = bootstrap.bufsize()
     img = B.build(states, slots, bs, sec, size, seqs=tuple(g["seqs"]), regions=tuple(g["regions"]), meta_mb=g["meta_mb"],
                   bat_mb=g["bat_mb"], base_mb=g.get("base_mb"), total_blocks=total, window_at=at, leave_allocated=bool(g.get("leave")),
-                  stale_offsets=bool(g.get("stale")))
+                  stale_offsets=bool(g.get("stale")), extra_items=_extra_items(g.get("extra_items")))
     disk = B.model(states, bs, sec, size, total_blocks=total, window_at=at)
     ctx.model([g, states, slots])
     ctx.executions += 1
